@@ -440,6 +440,40 @@ def run_emplace_check(tier):
                                     "the count argument of a VaryingSize parameter equals the range length (documented precondition)"])
 
 
+# ---------------------------------------------------------------------------------------------- C17 fault
+FAULT_CONFIGS = [
+    ("P:u32,P:f32", ["s000"]), ("P:Tr8,P:u16,P:str", ["s000", "std"]), ("P:u32,F:f32@32", ["s100"]), ("F:Tr4,P:u8,F:Tr24@8", ["s000", "s010"]), ("F:str,P:str", ["s001"]),
+    ("F:uptr,P:uptr", ["s000"]), ("P:u32,C:u64@8,V:f32", ["s000", "s111"]), ("C:u32,V:Tr4,P:Tr24", ["s000", "s110"]), ("C:u64@8,V:str,P:str", ["s000", "stdm"]),
+    ("C:u64@8,V:uptr,P:uptr", ["s000"]), ("F:Tr8,C:u8,V:u16@2,P:Tr4@4", ["s000", "s101"]), ("P:u8,C:u16,V:Tr8@8,P:TrMv8", ["s000"]), ("F:f32,P:u32,C:u64@8,V:f32", ["s011"]),
+]
+FAULT_RULE = "fault enumeration: for each generated pre-state (source / target vectors empty, partly filled or full, elements of differing sizes) and each of 9 operations (construct, reserve, copy construct, copy assign, move assign between unequal allocators, element from reference, element copy, element copy / move assign) the operation runs fault-free to count its k allocator calls and is then repeated from the identical pre-state with allocation i throwing std::bad_alloc for EVERY i in 1..k (exhaustive over i, sampled over pre-states); after the throw: source unchanged (reserve, copy), operands readable with size() == live objects, re-assignable, and after destroying everything the ledger and the object registry balance; std::terminate is a violation; non-trivial: at least one fault was injected; distinct: (operation, pre-state seed)"
+
+
+def fault_units(tier, seed):
+    configs = list(FAULT_CONFIGS)
+    if tier == "thorough":
+        configs = [(c, sorted(set(k + ["s000", "s100", "s010", "s001", "s111", "std"]))) for c, k in configs] + [(c, k) for c, k in sampled_configs(seed + 400, 30)]
+    cases = 270 if tier == "quick" else 3600
+    if os.environ.get("VERIF_CASES"):
+        cases = int(os.environ["VERIF_CASES"])
+    flavours = ["plain", "asan"] if tier == "quick" else ["plain", "asan", "casan"]
+    units = []
+    for cfg, kinds in configs:
+        for k in kinds:
+            for fl in flavours:
+                a = {"seed": seed, "max-cap": 5 if tier == "quick" else 10, "max-span": 4 if tier == "quick" else 9}
+                units.append(Unit("fault", cfg, k, fl, a, cases if fl != "casan" else cases // 3, batch=45 if tier == "quick" else 180))
+    return units
+
+
+def run_fault_check(tier):
+    t0 = time.time()
+    units = fault_units(tier, vf.SEED)
+    errs = vf.run_units(units)
+    return vf.conclude("C17", tier, "fault_enumeration", units, errs, FAULT_RULE, t0,
+                       assumptions=["only allocator failures are injected (C17 says nothing about throwing value types)", "the allocator throws std::bad_alloc, as std::allocator does"])
+
+
 def setup():
     units = []
     for prop in ["C01"]:
@@ -477,6 +511,8 @@ def units_for(prop, tier, seed):
         return elem_units(tier, seed)
     if prop == "C15":
         return emplace_units(tier, seed)
+    if prop == "C17":
+        return fault_units(tier, seed)
     raise KeyError(prop)
 
 
@@ -493,6 +529,8 @@ def run_check(prop, tier):
         return run_elem_check(tier)
     if prop == "C15":
         return run_emplace_check(tier)
+    if prop == "C17":
+        return run_fault_check(tier)
     sys.stderr.write("no check for %s\n" % prop)
     return 2
 
